@@ -5,7 +5,7 @@ VERIF = os.path.dirname(os.path.dirname(os.path.abspath(__file__)))
 REPO = os.environ.get("VERIF_REPO", "/repo")
 LEAN = os.path.join(VERIF, "lean")
 BUILD = os.path.join(VERIF, "build")
-EVID = os.path.join(VERIF, "evidence")
+EVID = os.environ.get("VERIF_EVIDENCE_DIR") or os.path.join(VERIF, "evidence")   # VERIF_EVIDENCE_DIR: runs against scratch copies (seeded changes) must not overwrite the evidence of /repo
 REPLAYS = os.path.join(VERIF, "replays")
 NPROC = os.cpu_count() or 4
 ALLOWED_AXIOMS = {"propext", "Classical.choice", "Quot.sound"}
@@ -322,10 +322,14 @@ class Driver:
 
 
 # ------------------------------------------------------------------ rt harness runs
-def run_rt(exe, scenario, mode="dfs", preemptions=2, max_execs=20000, seed=1, replay=None, timeout=900, extra=()):
+def run_rt(exe, scenario, mode="dfs", preemptions=2, max_execs=20000, seed=1, replay=None, timeout=None, extra=()):
     cmd = [exe, "--scenario", scenario, "--mode", mode, "--preemptions", str(preemptions), "--max-execs", str(max_execs), "--seed", str(seed)] + list(extra)
     if replay is not None:
         cmd = [exe, "--scenario", scenario, "--replay", replay] + list(extra)
+    if timeout is None:
+        # a harness that hangs (the scheduler cannot detect a hang outside its control, e.g. a lost OS-level wake-up)
+        # is reported as "harness timeout"; the quick tier must stay quick even on a broken tree
+        timeout = 300 if os.environ.get("VERIF_TIER_EFFECTIVE", "quick") == "quick" else 3600
     try:
         r = run(cmd, timeout=timeout)
     except subprocess.TimeoutExpired:
